@@ -145,6 +145,35 @@ def mirrored_in_some_masters(ds, name):
     return False
 
 
+def collinear_in_one_master(rng, ds):
+    """Three consecutive on-curve points of a line contour share one y (or x) in ONE master only:
+    a per-master charstring optimiser would merge the two line operators there and nowhere
+    else."""
+    base = ds["ufos"][0]["glyphs"]
+    cands = []
+    for g in base:
+        for ci, c in enumerate(g["contours"]):
+            for j in range(1, len(c) - 1):
+                if all(c[k][2] == "line" for k in (j - 1, j, j + 1)):
+                    cands.append((g["name"], ci, j))
+    if not cands:
+        return False
+    name, ci, j = rng.choice(cands)
+    ui = rng.randrange(len(ds["ufos"]))
+    ax = rng.choice([0, 1])
+    for k, u in enumerate(ds["ufos"]):
+        for g in u["glyphs"]:
+            if g["name"] != name or ci >= len(g["contours"]):
+                continue
+            c = g["contours"][ci]
+            if k == ui:
+                c[j][ax] = c[j - 1][ax]
+                c[j + 1][ax] = c[j - 1][ax]
+            elif c[j][ax] == c[j - 1][ax] == c[j + 1][ax]:
+                c[j][ax] += 7
+    return True
+
+
 def gen(rng, idx, tier):
     func = rng.choice(FUNCS)
     kinds = rng.choice([["line", "curve"], ["line", "curve", "qcurve"], ["curve"], ["line", "qcurve"]])
@@ -163,6 +192,17 @@ def gen(rng, idx, tier):
     opts = {}
     if "TTF" in func and rng.random() < 0.35:
         opts["flattenComponents"] = True
+    if "OTF" in func and rng.random() < 0.5:
+        # the masters must stay unoptimised whatever the caller asks for (optimisation is a
+        # per-font decision and would break compatibility)
+        opts["optimizeCFF"] = 1
+        if collinear_in_one_master(rng, ds):
+            opts["_collinear"] = True
+        if rng.random() < 0.1:
+            # SUBROUTINIZE: every master goes through the subroutiniser; with a sparse master
+            # this is the stratum of a listed finding (tx needs a cmap)
+            opts["optimizeCFF"] = 2
+            stratum = "otf_masters_subroutinized"
     skip = []
     names = [g["name"] for g in ds["ufos"][0]["glyphs"]]
     if rng.random() < 0.25:
@@ -197,21 +237,14 @@ def structure_tt(tt, name):
 
 
 def structure_cff(tt, name):
-    tag = "CFF " if "CFF " in tt else "CFF2"
-    cs = tt[tag].cff.topDictIndex[0].CharStrings[name]
-    cs.decompile()
-    ops = []
-    nargs = 0
-    for tok in cs.program:
-        if isinstance(tok, str):
-            if not ops:
-                # the first operator may carry the advance-width operand: not point structure
-                nargs = {"rmoveto": 2, "hmoveto": 1, "vmoveto": 1, "endchar": 0}.get(tok, nargs)
-            ops.append((tok, nargs))
-            nargs = 0
-        else:
-            nargs += 1
-    return ("cff", tuple(ops))
+    """Point structure of a CFF glyph as DRAWN (subroutines expanded, specialised operators
+    generalised): the sequence of path operations with their point counts.  The property speaks
+    of points and their types, not of charstring operators: per-master subroutines or operator
+    choices that draw the same points are not a difference, a merged or dropped point is."""
+    from fontTools.pens.recordingPen import RecordingPen
+    rec = RecordingPen()
+    tt.getGlyphSet()[name].draw(rec)
+    return ("cff", tuple((op, len(args)) for op, args in rec.value))
 
 
 def tied_glyphs(glyphs, seeds):
@@ -242,7 +275,7 @@ def run(case):
     ds = case["ds"]
     func = case["func"]
     doc, fonts = build_designspace(ds, case["lib"])
-    kw = dict(case["opts"])
+    kw = {k: v for k, v in case["opts"].items() if not k.startswith("_")}
     kw["useProductionNames"] = False
     if case["filter"]:
         import ufo2ft.filters as F
@@ -277,6 +310,10 @@ def run(case):
     bump("ttf_runs" if is_tt else "otf_runs")
     if case["opts"].get("flattenComponents"):
         bump("flatten_runs")
+    if case["opts"].get("optimizeCFF"):
+        bump("otf_runs_with_optimizeCFF")
+        if case["opts"].get("_collinear"):
+            bump("collinear_in_one_master_families")
     violations = []
     struct = structure_tt if is_tt else structure_cff
     default_glyphs = ds["ufos"][ds["sources"][masters.default_source_index(ds)]["ufo"]]["glyphs"]
@@ -289,7 +326,7 @@ def run(case):
             if name in tt.getGlyphOrder():
                 st = struct(tt, name)
                 # a placeholder in a sparse master (empty base for a composite) is exempt
-                if layer_names[i] and st in (("empty",), ("cff", (("endchar", 0),))):
+                if layer_names[i] and st in (("empty",), ("cff", ())):
                     continue
                 seen.append((i, st))
         if len(seen) < 2:
@@ -359,6 +396,10 @@ def classify(v, case):
         # yields contours of opposite direction / start point there
         if mirrored_in_some_masters(case["ds"], v["detail"]["glyph"]):
             return "component_mirrored_in_some_masters_only"
+    if (v["mech"] == "unexpected_exception" and case["opts"].get("optimizeCFF") == 2
+            and "tx:" in v["detail"].get("trace", "") and "can't find cmap" in v["detail"]["trace"]
+            and any(s_.get("layerName") for s_ in case["ds"]["sources"])):
+        return "interpolatable_otf_subroutinize_fails_on_sparse_master"
     if v["mech"] == "unexpected_exception":
         # TrueType path: the same per-master reversal makes the masters disagree in point types,
         # which the joint cubic-to-quadratic conversion rejects
